@@ -101,6 +101,8 @@ def ringsCmd : P String := do
   match runR ⟨ct, fr⟩ RState.empty evs with
   | .error _ => pure "FAIL the ring model rejected the decorated events"
   | .ok rs =>
+    -- hypothesis `rs.s.ael = []` of `Props/C01Crown.output_region` / `c01_model_level`
+    if !rs.s.ael.isEmpty then return "FAIL the exact sweep ends with a non-empty AEL (hypothesis of Props/C01Crown.output_region)"
     let model := rs.o.rings
     let bottomup := ySorted evs
     -- (1) structure: the finished rings as a multiset (rounding may exchange two crossings of one scanbeam that are processed independently,
